@@ -10,6 +10,11 @@ judged by the *wire oracle* written below (independent of the code under test).
 A second family forces the local-minimum escape of GeneralizedSabreAlgorithm
 (`len(leading_swaps) > 5 * n` -> backtrack -> uphill swaps) by replacing `_get_best_swap`
 with a solver-chosen element of the real candidate set `_obtain_swaps(...)`.
+
+A third family runs the permutation-aware passes [SetModelPass, placement, PAMLayoutPass,
+PAMRoutingPass, ApplyPlacement] with harness-injected tagged (pre, circuit, post) triples in
+the block data (see PG / inject_perm_data); the wire oracle then relabels the wires of such a
+block according to the contract of EmbedAllPermutationsPass.
 """
 from __future__ import annotations
 
@@ -23,9 +28,9 @@ from bqskit.ir.circuit import Circuit
 from bqskit.ir.gates.barrier import BarrierPlaceholder
 from bqskit.ir.gates.circuitgate import CircuitGate
 from bqskit.ir.gates.constant.swap import SwapGate
-from bqskit.passes.mapping.apply import ApplyPlacement
 from bqskit.ir.gate import Gate
 from bqskit.passes.control.foreach import ForEachBlockPass
+from bqskit.passes.mapping.apply import ApplyPlacement
 from bqskit.passes.mapping.layout.pam import PAMLayoutPass
 from bqskit.passes.mapping.layout.sabre import GeneralizedSabreLayoutPass
 from bqskit.passes.mapping.placement import static as _static_mod
@@ -48,6 +53,9 @@ ENCODED = [
     '_apply_perm}',
     'bqskit.passes.mapping.layout.sabre:GeneralizedSabreLayoutPass.run',
     'bqskit.passes.mapping.routing.sabre:GeneralizedSabreRoutingPass.run',
+    'bqskit.passes.mapping.pam:PermutationAwareMappingAlgorithm.{forward_pass,_get_best_perm,_score_perm,'
+    '_global_to_local_perm}',
+    'bqskit.passes.mapping.layout.pam:PAMLayoutPass.run', 'bqskit.passes.mapping.routing.pam:PAMRoutingPass.run',
     'bqskit.passes.mapping.placement.greedy:GreedyPlacementPass.run',
     'bqskit.passes.mapping.placement.trivial:TrivialPlacementPass.run',
     'bqskit.passes.mapping.placement.static:StaticPlacementPass.{run,find_monomorphic_subgraph,'
@@ -55,44 +63,61 @@ ENCODED = [
     'bqskit.passes.mapping.setmodel:SetModelPass.run', 'bqskit.passes.mapping.apply:ApplyPlacement.run',
     'bqskit.compiler.passdata:PassData.{__init__,placement,initial_mapping,final_mapping,connectivity,model}',
     'bqskit.qis.graph:CouplingGraph.{__init__,get_subgraph,is_fully_connected,all_pairs_shortest_path,'
-    'get_shortest_path_tree,get_neighbors_of,get_qudit_degrees}',
+    'get_shortest_path_tree,get_neighbors_of,get_qudit_degrees,__eq__,__hash__}',
     'bqskit.ir.circuit:Circuit.{front,rear,next,prev,append_gate,append_circuit,pop,become,copy}',
 ]
 ASSUMPTIONS = [
     'gates are harness-tagged gates (vf.circ_oracle.TG, arity 1-3, one real parameter each, qubits) without '
     'numerics, BarrierPlaceholder, and CircuitGate blocks of tagged gates; identity of an operation = tag',
     'pass coroutines are driven inline with coro.send(None); none of the passes under test awaits the runtime '
-    '(an await would be reported as a harness error), so no runtime stub is involved',
+    '(an await would be reported as a violation "raised AssertionError"), so no runtime stub is involved',
     'the module global `time` of placement/static.py is replaced by a constant clock (the 10 s search timeout of '
     'StaticPlacementPass never fires; the search is exhaustive on <=5 qudits)',
-    'SABRE uses no random numbers; its tie-breaks are iteration orders of sets of int tuples, which are '
+    'SABRE/PAM use no random numbers; their tie-breaks are iteration orders of sets of int tuples, which are '
     'deterministic (PYTHONHASHSEED=0 and int hashing) and executed as they are',
     'accepted refusals (not violations): RuntimeError of TrivialPlacementPass when qudits 0..n-1 are disconnected '
     '(independently recomputed); RuntimeError "disconnected qudits" of the layout pass after StaticPlacementPass '
-    'left/produced a disconnected placement (independently recomputed); any other exception is a violation',
+    'produced a disconnected placement (happens when the circuit\'s interaction graph is disconnected; '
+    'independently recomputed; shard key strict_static=1 turns it into a violation); any other exception is a '
+    'violation',
     'connectivity is demanded of every operation on >=2 qudits except BarrierPlaceholder and CircuitGate blocks '
     'that contain only single-qudit gates (no physical multi-qudit interaction)',
     'escape obligations: `_get_best_swap` is replaced by a solver-chosen element of the real '
-    '`_obtain_swaps(...)` candidate set for the first K decisions (over-approximates the scoring heuristic), '
-    'afterwards the real heuristic decides',
-    'algorithm parameters (placement pass, total_passes, extended_set_size, decay_delta, decay_reset_interval) '
-    'are enumerated concretely inside each path from the list in the shard',
+    '`_obtain_swaps(...)` candidate set for the first 24 decisions of the named phase (over-approximates the '
+    'scoring heuristic; a shard may pin a prefix of the choices to candidate 0), afterwards the real heuristic '
+    'decides; a separate concrete witness obligation shows that the backtrack+uphill branch is entered',
+    'algorithm parameters (placement pass, total_passes, extended_set_size, decay_delta, decay_reset_interval, '
+    'gate_count_weight, layout on/off) are enumerated concretely inside each path from the list in the shard',
+    'PAM: the pre-synthesised permutation data normally produced by QuickPartitioner + ForEachBlockPass('
+    'EmbedAllPermutationsPass) (numerical synthesis) is injected by the harness: for every operation, every '
+    'connected local graph and every (pre, post) pair a tagged stand-in circuit whose meaning is the contract of '
+    'embed.py (unitary Po^T.U.Pi, PermutationMatrix.from_qudit_location convention, confirmed numerically once); '
+    'operations have sorted locations as blocks made by the partitioners do (PAM\'s permutation arithmetic '
+    'silently assumes it); tagged gates return an identity matrix from get_unitary because PAMRoutingPass stores '
+    'op.get_unitary() in its out-data',
 ]
 BOUNDS = {
-    'quick': 'n<=4 logical on every connected graph with m<=4 physical qudits (m>=n, all 4 / 38 labelled graphs); '
-             'circuits of exactly 1,2,3 operations from the shard menu (see obligation names: 3 ops with the full '
-             'menu on m=3, 2 ops full menu on m=4, 3 ops two-/three-qudit gates on m=4); 9-12 parameter '
-             'configurations per input; escape path: 4 logical on the 4-line (all 12 locations of one 2-qudit '
-             'gate + follow-up gate), K=24 symbolic swap choices in routing / layout',
-    'thorough': 'n<=4 logical, m<=5 physical (all 728 connected labelled graphs for <=2 ops, trees and '
-                'line/ring/star families for 3-4 ops), <=4 operations, 36 parameter configurations; escape path '
-                'on 4-line and 4-star+tail with a symbolic gate pair',
+    'quick': 'SABRE: n<=4 logical qudits on every connected labelled graph with m<=4 physical qudits (4 graphs '
+             'on 3, 38 on 4 vertices; trees only where the obligation name says maxe3; the 4-line for 3 '
+             'operations on 4 logical qudits), circuits of exactly 1-3 operations from the menu in the obligation '
+             'name (1: 1-qudit, 2: 2-qudit ordered, 3: 3-qudit ordered, 4/7: barriers, 5/6: CircuitGate blocks), '
+             '12 parameter configurations per input (3 placement passes x {total_passes 1/2, extended set 0/1/20, '
+             'decay 0/0.001/0.5} + routing without layout). Escape path: one gate on the 4-line, 24 symbolic swap '
+             'choices (first 6 pinned; 13 pinned for the 3-qudit gate) in routing-forward and layout-backward. '
+             'PAM: n<=4, m<=4, 2-3 operations with sorted locations, 6 configurations, all (pre,post) pairs on all '
+             'connected local graphs; PAM escape with 6 pinned choices',
+    'thorough': 'SABRE: n<=4 logical, m<=5 physical (all 728 connected labelled graphs on 5 vertices for 1-2 '
+                'operations, trees / the 4-line / the 5-line for 3-4 operations), <=4 operations, 45 parameter '
+                'configurations; escape path with the complete 24-choice tree for 6 gate locations in '
+                'routing-forward, 3 in layout-forward, 3 two-gate circuits in layout-backward, 3-qudit gates with 9-11 '
+                'pinned choices; PAM: n<=4, m<=5, <=3 operations, 42 configurations, escape in routing and layout',
 }
 OUTSIDE = ('machines with more than 5 qudits and circuits with more than 4 operations / 4 logical qudits; radix != 2 '
-           '(the code refuses hybrid radix); PAM (pam.py, routing/pam.py, layout/pam.py: needs pre-synthesised '
-           'permutation data, not driven here); topology.py sub-topology selection and embed.py (numerical); '
-           'natural (heuristic-driven) local minima, which need >= 13 qudits - the escape path is reached through '
-           'the symbolic swap choice instead')
+           '(the code refuses hybrid radix); the numerical producers of PAM data (embed.py, topology.py '
+           'sub-topology selection, synthesis) and PAMVerificationSequence (verify.py); PAM on operations with '
+           'unsorted locations (not produced by the partitioners; PAM mis-books them); natural (heuristic-driven) '
+           'local minima, which need >= 13 qudits - the escape path is reached through the symbolic swap choice '
+           'instead; quality of the layout (only correctness is checked)')
 
 # ----------------------------------------------------------------------------------------
 # deterministic clock for StaticPlacementPass (module global `time` of static.py)
@@ -870,6 +895,8 @@ def obligations(tier: str) -> list[dict]:
         if algo == 'pam':
             kw['pam'] = 1
         nm = '%s/n%d/m%d/ops%d/codes%s/%s' % (algo, n, m, nops, cn, cfgs)
+        if 'max_edges' in kw:
+            nm += '/maxe%d' % kw['max_edges']
         if 'edges' in kw:
             nm += '/graph' + ''.join('%d%d' % tuple(e) + '-' for e in kw['edges'])[:-1]
         func = 'route4' if m <= 4 and nops <= 3 else 'route'
@@ -923,25 +950,24 @@ def obligations(tier: str) -> list[dict]:
         Q = 'quick'
         T = 600
         fam(2, 2, 2, [1, 2, 5, 7], Q, T)
-        fam(2, 4, 2, [1, 2, 5, 7], Q, T)
-        fam(3, 3, 2, ALL, Q, T, split=1)
+        fam(2, 4, 2, [2, 5], Q, T)
+        fam(3, 3, 2, [1, 2, 3, 5, 7], Q, T, split=1)
         fam(3, 3, 3, [2], Q, T)
         fam(3, 4, 1, ALL, Q, T)
         fam(3, 4, 2, [2, 3, 7], Q, T, split='op0')
-        fam(3, 4, 3, [2], Q, T, split='op0')
-        fam(4, 4, 1, ALL, Q, T)
-        fam(4, 4, 2, [2], Q, T, split='op0')
+        fam(3, 4, 3, [2], Q, T, split='op0', max_edges=3)
+        fam(4, 4, 1, [2, 3, 5, 7], Q, T, split=1)
+        fam(4, 4, 2, [2], Q, T, split=1, max_edges=3)
         fam(4, 4, 3, [2], Q, T, edges=LINE4)
-        fam(4, 4, 3, [2], Q, T, edges=STAR4)
-        esc('routing-fwd/line4/T(0,3)', T, [[2, [0, 3]]], 'routing-fwd', LINE4, fixed=4, witness=True)
-        esc('layout-bwd/line4/T(1,2)T(0,3)', T, [[2, [1, 2]], [2, [0, 3]]], 'layout-bwd', LINE4, fixed=4,
+        esc('routing-fwd/line4/T(0,3)', T, [[2, [0, 3]]], 'routing-fwd', LINE4, fixed=6, witness=True)
+        esc('layout-bwd/line4/T(1,2)T(0,3)', T, [[2, [1, 2]], [2, [0, 3]]], 'layout-bwd', LINE4, fixed=6,
             witness=True)
         esc('routing-fwd/line4/T(0,1,3)', T, [[3, [0, 1, 3]]], 'routing-fwd', LINE4, fixed=13, witness=True)
         PQ = 'pam-quick'
         fam(3, 3, 2, [1, 8, 9], PQ, T)
         fam(3, 4, 2, [8, 9], PQ, T)
         fam(3, 4, 3, [8], PQ, T)
-        fam(4, 4, 2, [8], PQ, T)
+        fam(4, 4, 2, [8], PQ, T, max_edges=3)
         fam(4, 4, 3, [8], PQ, T, edges=LINE4)
         fam(3, 4, 2, [9, 4, 7], PQ, T)                     # barriers
         esc('routing-fwd/line4/T(0,3)', T, [[8, [0, 3]]], 'routing-fwd', LINE4, fixed=6, witness=True, algo='pam',
@@ -954,7 +980,8 @@ def obligations(tier: str) -> list[dict]:
         fam(2, 5, 2, [2, 5], F, T, split=1)
         fam(3, 3, 3, [2, 3, 5], F, T, split='op0')
         fam(3, 4, 2, ALL, F, T, split='op0')
-        fam(3, 4, 3, [2, 3], F, T, split='op0e')
+        fam(3, 4, 3, [2], F, T, split='op0')
+        fam(3, 4, 3, [2, 3], F, T, split='op0', max_edges=3)
         fam(3, 5, 1, ALL, F, T, split=2)
         fam(3, 5, 2, [2], F, T, split='op0')
         fam(4, 4, 2, [2, 3], F, T, split='op0')
